@@ -61,6 +61,10 @@ def build_case(rec, pool, variant, status_code=None):
                 gz = gzip.compress(plain[:a], mtime=0) + gzip.compress(plain[a:b_], mtime=0) + gzip.compress(b"", mtime=0) + gzip.compress(plain[b_:], mtime=0)
         if fat == i and fk == "notgzip":
             gz = plain if plain else b"not a gzip archive\n"
+            if variant % 3 == 0:
+                gz = b""            # the host answers 200 with a complete, empty body
+        if fk == "none" and not rec["cli"] and variant % 7 == 6 and i == n:
+            gz, plain = b"", b""    # library level: an empty download is a download (served bytes = stored bytes), and is cleaned up like one
         if fat == i and fk == "longline":
             longl = pool.junk_line("long", variant, 77)
             ll = list(lines[:1]) + [("long", longl, 0)] + list(lines[1:])
